@@ -19,6 +19,9 @@ pub enum K {
     Call,
     /// midpoint of a payload clone or of a view closure
     PayloadYield,
+    /// scheduling point right after a cursor commit or a publication-tag store: the plain code that follows
+    /// (moving a value out, writing a payload) can be separated from the op that precedes it
+    PostCommit,
     /// waiting for a futures task notification
     TaskWait,
 }
@@ -46,6 +49,7 @@ impl K {
             },
             K::Call => "call",
             K::PayloadYield => "pyield",
+            K::PostCommit => "postcommit",
             K::TaskWait => "taskwait",
         }
     }
@@ -56,7 +60,7 @@ impl K {
             // taking and releasing a lock changes nothing another thread can observe afterwards
             K::Shim(OpKind::MutexLock) | K::Shim(OpKind::MutexUnlock) | K::Shim(OpKind::CvNotifyAll) => true,
             K::Shim(OpKind::Cas) | K::Shim(OpKind::MutexTryLock) => !ok,
-            K::Call | K::TaskWait | K::PayloadYield => true,
+            K::Call | K::TaskWait | K::PayloadYield | K::PostCommit => true,
             _ => false,
         }
     }
@@ -210,6 +214,8 @@ pub struct St {
     pub leaving: HashSet<usize>,
     pub gptr_addr: usize,
     /// memory-manager trace (events "mm" for MQMemImplTrace): on/off, lock addresses, dense object ids
+    /// cursors and publication tags: a scheduling point follows every successful write to them (native runs)
+    pub post_addrs: HashSet<usize>,
     pub mm_trace: bool,
     pub mm_lock_addr: usize,
     pub wtf_lock_addr: usize,
@@ -269,6 +275,7 @@ impl St {
             tokens: HashMap::new(),
             leaving: HashSet::new(),
             gptr_addr: 0,
+            post_addrs: HashSet::new(),
             mm_trace: false,
             mm_lock_addr: 0,
             wtf_lock_addr: 0,
@@ -889,6 +896,16 @@ impl vh::Runtime for Rt {
             _ => 0,
         };
         self.done(K::Shim(kind), addr, arg, val, ok);
+        if ok && matches!(kind, OpKind::Store | OpKind::Cas) && TID.with(|c| c.get()).is_some() {
+            let post = {
+                let st = self.lock();
+                st.active && !st.abort && !st.transparent_mm && st.post_addrs.contains(&addr)
+            };
+            if post {
+                self.sched(K::PostCommit, 0, 0);
+                self.done(K::PostCommit, 0, 0, 0, true);
+            }
+        }
     }
     fn on_retire(&self, addr: usize) {
         let _h = crate::heap::harness();
